@@ -16,8 +16,15 @@ RULE = {
         'state types), 2-12 formula objects and texts over CTL / LTL / CTL* '
         '(plus queries that must be rejected with TypeError), 0-3 fairness '
         'lists per structure (including re-partitions of one union) and '
-        'shared parsers; then 10-40 scheduler-chosen operations: call, '
-        'repeat, same formula on another structure and - in the '
+        'shared parsers, text formulas with quoted atoms, optionally one '
+        'large structure (32-45 states, CTL queries only) and formulas '
+        'obtained by name feedback (atoms named like the names the library '
+        'generated internally while answering the plan in an isolated '
+        'child); then 10-70 scheduler-chosen operations: call, repeat, same '
+        'formula on another structure, another formula under the same '
+        'fairness list, an in-place edit of a structure by the caller '
+        'through the public API (after which the reference is the pristine '
+        'child that applied the same edits) and - in the '
         'fault-injecting configuration (run index = 1 mod 3) - calls cut '
         'short by SimAbort / MemoryError / RecursionError raised at a chosen '
         'line event inside repository code, or - in the interleaved-calls '
